@@ -372,6 +372,18 @@ func c20R5(c *Ctx) {
 		valOK := vo.Kind == "binop" && vo.Op == token.MUL && vo.Mentions(func(x *Org) bool {
 			return (x.Kind == "outarg" || x.Kind == "call") && x.IsCallTo("(FieldMap).GetField", "(FieldMap).GetInt") && x.ArgConstInt(0, t108)
 		}) && vo.Mentions(func(x *Org) bool { n, ok := x.ConstIntVal(); return ok && n == 1000000000 })
+		// … and not on the interval adopted earlier: the session object outlives connections
+		stale := false
+		for _, a := range d.Atoms() {
+			for _, side := range []*Org{a.L, a.R, a.B} {
+				if side != nil && side.Mentions(func(x *Org) bool { return x.Kind == "field" && x.Field == fHB }) {
+					stale = true
+				}
+			}
+		}
+		if stale {
+			c.Violation(name, p.InstrPos(st.Store), "hbint-adoption-stale", "the peer's HeartBtInt is adopted only under a test of the interval the session already holds ("+clip(d.String(), 200)+"): the session object outlives connections, so the interval of the first Logon sticks and a later Logon announcing a different interval is ignored")
+		}
 		c.Check(notInit && notOver && valOK, name, p.InstrPos(st.Store), "hbint-adoption", "HeartBtInt ← tag 108 × second, only as acceptor without override",
 			fmt.Sprintf("HeartBtInt is overwritten from %s under %s: expected peer's HeartBtInt(108) × time.Second, guarded by ¬InitiateLogon ∧ ¬HeartBtIntOverride", vo.String(), d.String()))
 	}
